@@ -272,6 +272,21 @@ theorem derived_names_cause (b : Blob) (key : String) (c : Chain) (h : b = .clea
     simp [getDerived, setDerived, derivedAccess, getAttrBlob, setError, clearError, kdumpNODATA, Kdf.Gen.Status.kdumpCodes]
 
 
+/-- VMCOREINFO look-ups by name: success leaves no message, every miss leaves one -/
+theorem vmcoreinfoLookup_disciplined (sym : Bool) (l : VLook) (os : String) (c : Chain) :
+    Disciplined (vmcoreinfoLookup sym l os c) := by
+  cases l <;> cases sym <;> simp [Disciplined, vmcoreinfoLookup, ostypeAttr, setError, clearError, kdumpNODATA, Kdf.Gen.Status.kdumpCodes]
+
+/-- a name that starts with a dot is a miss like any other: same status, same story -/
+theorem vmcoreinfoLookup_dot_is_miss (sym : Bool) (os : String) (c : Chain) :
+    vmcoreinfoLookup sym .dot os c = vmcoreinfoLookup sym .miss os c := by
+  simp [vmcoreinfoLookup, ostypeAttr]
+
+/-- every failing look-up answers NODATA with exactly one link -/
+theorem vmcoreinfoLookup_fail_one_link (sym : Bool) (l : VLook) (os : String) (c : Chain) (h : l ≠ .found) :
+    (vmcoreinfoLookup sym l os c).1 = kdumpNODATA ∧ (vmcoreinfoLookup sym l os c).2.length = 1 := by
+  cases l <;> cases sym <;> simp_all [vmcoreinfoLookup, ostypeAttr, setError, clearError, kdumpNODATA, Kdf.Gen.Status.kdumpCodes]
+
 /-! ### Non-vacuity: concrete runs of the modelled functions -/
 example : mapLinuxArm false ⟨0, []⟩ ⟨5, ["no sym _stext"]⟩ true ⟨2, ["page not available"]⟩ true Part.ok Part.ok []
     = (5, ["Cannot determine PAGE_BASE"]) := by decide
